@@ -57,16 +57,25 @@ Tr(k, lv, E, K(_)) ==
     [] k = "ifchanged" -> <<[t |-> "ifchanged", args |-> <<>>, body |-> K(E), els |-> <<>>]>>
     [] k = "filtertag" -> <<[t |-> "filter", chain |-> <<FC("lower", NoArg)>>, body |-> K(E)]>>
     [] k = "if" -> <<[t |-> "if", conds |-> <<E>>, bodies |-> <<K(E)>>]>>
-    [] k = "defaultfilter" -> K(Filt(Var(<<"nope">>), <<FC("default", E)>>))
+    \* (a filter parameter is a name, a path or a literal: anything else goes through a name first)
+    [] k = "defaultfilter" -> IF E.t \in {"var", "lit"} THEN K(Filt(Var(<<"nope">>), <<FC("default", E)>>))
+                              ELSE <<Set(Name("d", lv), E)>> \o K(Filt(Var(<<"nope">>), <<FC("default", Var(<<Name("d", lv)>>))>>))
     [] k = "autoescape_on" -> <<[t |-> "autoescape", on |-> TRUE, body |-> K(E)]>>
 
-SinkKinds == <<"out", "firstof", "cycle", "include_with", "include_plain", "out_twice", "cycle_as">>
+SinkKinds == <<"out", "firstof", "cycle", "include_with", "include_plain", "out_twice", "cycle_as", "cycle_ref", "cycle_ref_silent">>
 Sink(k, E) ==
   CASE k = "out" -> <<Out(E)>>
     [] k = "out_twice" -> <<Out(E), T(<<"-">>), Out(Bin("+", Lit(S(<<"y">>)), E))>>
-    [] k = "firstof" -> <<[t |-> "firstof", args |-> <<Var(<<"nope">>), E>>]>>
+    \* (the false first argument is a literal: after a name, an argument that starts with [ or ( would read as its subscript / call)
+    [] k = "firstof" -> <<[t |-> "firstof", args |-> <<Lit(S(<<>>)), E>>]>>
     [] k = "cycle" -> <<[t |-> "cycle", args |-> <<E, Lit(S(<<"z">>))>>, as |-> "", silent |-> FALSE]>>
     [] k = "cycle_as" -> <<[t |-> "cycle", args |-> <<E, Lit(S(<<"z">>))>>, as |-> "cy", silent |-> TRUE], Out(Var(<<"cy">>))>>
+    \* the value of a cycle named by a later cycle tag: that tag prints the next value of the first
+    [] k = "cycle_ref" -> <<[t |-> "cycle", args |-> <<Lit(S(<<"y">>)), E, E>>, as |-> "cy", silent |-> FALSE], T(<<"|">>),
+                            [t |-> "cycle", args |-> <<Var(<<"cy">>)>>, as |-> "", silent |-> FALSE], T(<<"|">>),
+                            [t |-> "cycle", args |-> <<Var(<<"cy">>), Lit(S(<<"n">>))>>, as |-> "", silent |-> FALSE], T(<<"|">>), Out(Var(<<"cy">>))>>
+    [] k = "cycle_ref_silent" -> <<[t |-> "cycle", args |-> <<Lit(S(<<"y">>)), E>>, as |-> "cy", silent |-> TRUE],
+                                   [t |-> "cycle", args |-> <<Var(<<"cy">>)>>, as |-> "", silent |-> FALSE], Out(Var(<<"cy">>))>>
     [] k = "include_with" -> <<[t |-> "include", name |-> "inc", pairs |-> <<[name |-> "q", e |-> E]>>, only |-> TRUE]>>
     [] k = "include_plain" -> <<Set("q", E), [t |-> "include", name |-> "inc", pairs |-> <<>>, only |-> FALSE]>>
 
